@@ -102,6 +102,10 @@ impl<'a> Interp<'a> {
         if h.kind != 2 || h.len != 0 {
             return None;
         }
+        if h.cap == 0 && oalloc::packed() {
+            // packed mode: a one-past-the-end address is also the start of the next block
+            return None;
+        }
         let b = h.blk?;
         if b.state != BState::Live || b.align != 1 {
             return None;
